@@ -105,6 +105,11 @@ func (sfc *StructFieldsCopy) createFieldSnippet(f *types.Var) snippet.Snippet {
 			// always gen
 			fc.HasDeepCopyInto = true
 			fc.HasDeepCopy = true
+
+			// what will be generated is known, whether or not an earlier run's methods are already there:
+			// map types copy by value (func (in T) DeepCopy() T), everything else through pointers
+			_, isMap := x.Underlying().(*types.Map)
+			fc.PtrResultOrParam = !isMap
 		}
 		if fc.PtrResultOrParam && fc.HasDeepCopyInto {
 			return snippet.T(`
